@@ -421,13 +421,13 @@ fn sequences(max_len: usize) -> Vec<Vec<u8>> {
     out
 }
 
-const STACKS: [StackCfg; 3] = [StackCfg::Direct, StackCfg::Buf(5), StackCfg::Buf(8192)];
+const STACKS: [StackCfg; 4] = [StackCfg::Direct, StackCfg::Buf(5), StackCfg::Buf(8192), StackCfg::WriteBack];
 
 /// C09 sweep: unit = (type, with_shx, stack); all sequences up to `max_len`, three endings.
 pub fn c09_sweep_unit(unit: u64, max_len: usize, ctx: &mut Ctx, ctl: &mut UnitCtl) {
     let ty = TYPES[(unit % 13) as usize];
     let with_shx = (unit / 13) % 2 == 0;
-    let stack = STACKS[((unit / 26) % 3) as usize];
+    let stack = STACKS[((unit / 26) % 4) as usize];
     let a = grid_spec(ty, 1, 2, 3);
     let b = grid_spec(ty, 2, 3, 50);
     // for the types with Z and M: the same histories (up to length 3) with shapes that lie exactly at
@@ -836,6 +836,31 @@ impl shapefile::record::EsriShape for BigLine {
     }
 }
 
+/// A polyline-typed user shape that honestly announces and emits `.0` bytes (of 0x11).
+struct SizedLine(usize);
+impl shapefile::HasShapeType for SizedLine {
+    fn shapetype() -> shapefile::ShapeType {
+        shapefile::ShapeType::Polyline
+    }
+}
+impl shapefile::record::WritableShape for SizedLine {
+    fn size_in_bytes(&self) -> usize {
+        self.0
+    }
+    fn write_to<T: std::io::Write>(&self, dest: &mut T) -> Result<(), shapefile::Error> {
+        dest.write_all(&vec![0x11u8; self.0])?;
+        Ok(())
+    }
+}
+impl shapefile::record::EsriShape for SizedLine {
+    fn x_range(&self) -> [f64; 2] {
+        [0.0, 1.0]
+    }
+    fn y_range(&self) -> [f64; 2] {
+        [0.0, 1.0]
+    }
+}
+
 /// A polyline-typed user shape that honestly announces and emits `.0` MiB of zeros.
 struct HugeLine(usize);
 impl shapefile::HasShapeType for HugeLine {
@@ -963,6 +988,80 @@ pub fn execute_user(scn: &UserShapeScn, ctx: &mut Ctx) {
                 }
             }
             ctx.stats.reach("user-defined-shape-failing-by-itself");
+        }
+        "stderr-gone" => {
+            // the process environment as a fault: the same binary is run as a child whose standard
+            // error stream is a pipe without a reader (closed before the child is told to start), and
+            // reports the verdicts of a small WFAULT sweep on its standard output
+            use std::io::{Read, Write};
+            use std::process::{Command, Stdio};
+            let exe = std::env::current_exe().unwrap_or_default();
+            let child = Command::new(exe).arg("stderr-gone-child").env("RUST_BACKTRACE", "0").stdin(Stdio::piped()).stdout(Stdio::piped()).stderr(Stdio::piped()).spawn();
+            let mut child = match child {
+                Ok(c) => c,
+                Err(e) => {
+                    ctx.fail("HARNESS", "spawn", "stderr-gone", format!("cannot start the child process: {}", e));
+                    return;
+                }
+            };
+            drop(child.stderr.take());
+            if let Some(mut si) = child.stdin.take() {
+                let _ = si.write_all(b"go\n");
+            }
+            let mut out = String::new();
+            if let Some(mut so) = child.stdout.take() {
+                let _ = so.read_to_string(&mut out);
+            }
+            let status = child.wait();
+            match out.lines().find_map(|l| l.strip_prefix("F ")).map(serde_json::from_str::<Vec<Fail>>) {
+                Some(Ok(fails)) => {
+                    for f in fails {
+                        ctx.fail(&f.prop, &f.clause, format!("stderr-gone:{}", f.site), format!("in a process whose standard error has lost its reader: {}", f.detail));
+                    }
+                    ctx.stats.reach("stderr-gone-child-reported");
+                }
+                _ => ctx.fail("C12", "panic", "stderr-gone:child-died", format!("the child process with a standard error stream without a reader ended without a report ({:?})", status.map(|s| s.code()))),
+            }
+        }
+        "sized" => {
+            // the size ladder of C09: a record of `fin_after` bytes (every even size in turn, so that
+            // the file length a finalize sees takes every value of a range), a finalize, further
+            // records, against the same records without the finalize; with and without an index
+            let n = scn.fin_after as usize;
+            for with_shx in [false, true] {
+                for second in [16usize, n] {
+                    let run = |fin: bool| -> Result<Result<(Vec<u8>, Vec<u8>), String>, PanicInfo> {
+                        guarded(move || {
+                            let world = World::new(Plan::default());
+                            {
+                                let shp = Stack::writer(&world, SHP, StackCfg::Direct);
+                                let mut w = if with_shx { shapefile::ShapeWriter::with_shx(shp, Stack::writer(&world, SHX, StackCfg::Direct)) } else { shapefile::ShapeWriter::new(shp) };
+                                w.write_shape(&SizedLine(n)).map_err(|e| format!("write: {:?}", classify(&e)))?;
+                                if fin {
+                                    w.finalize().map_err(|e| format!("finalize: {:?}", classify(&e)))?;
+                                }
+                                w.write_shape(&SizedLine(second)).map_err(|e| format!("write: {:?}", classify(&e)))?;
+                                if fin {
+                                    w.finalize().map_err(|e| format!("finalize: {:?}", classify(&e)))?;
+                                }
+                                w.write_shape(&SizedLine(n)).map_err(|e| format!("write: {:?}", classify(&e)))?;
+                            }
+                            let wb = world.borrow();
+                            Ok((wb.data(SHP).to_vec(), wb.data(SHX).to_vec()))
+                        })
+                    };
+                    match (run(true), run(false)) {
+                        (Err(p), _) | (_, Err(p)) => ctx.fail("C09", "panic", p.site(), format!("records of {} / {} / {} bytes: {}", n, second, n, p.text())),
+                        (Ok(Err(e)), _) | (_, Ok(Err(e))) => ctx.fail("C09", "write-ok", "size-ladder", format!("records of {} / {} / {} bytes: {}", n, second, n, e)),
+                        (Ok(Ok(a)), Ok(Ok(b))) => {
+                            if a != b {
+                                ctx.fail("C09", "same-as-drop", "size-ladder", format!("a caller's shapes of {} / {} / {} bytes (index: {}) with a finalize after the first and the second: the files differ from write x3, drop (.shp {} vs {} bytes, .shx {} vs {})", n, second, n, with_shx, a.0.len(), b.0.len(), a.1.len(), b.1.len()));
+                            }
+                        }
+                    }
+                }
+            }
+            ctx.stats.reach("size-ladder");
         }
         "big" => {
             let run = |fin_after: u32, fail_op: u64| -> Result<Result<SparseSink, String>, PanicInfo> {
@@ -1106,6 +1205,9 @@ pub fn user_unit(unit: u64, ctx: &mut Ctx, ctl: &mut UnitCtl) {
         3 => (1..=6).map(|k| UserShapeScn { kind: "big-no-retry".into(), fin_after: [32, 33][(k % 2) as usize], fail_op: k }).collect(),
         // one record of 2 GiB - 1 MiB, 2 GiB, 3 GiB (the size in MiB travels in `fin_after`)
         4 => [2047u32, 2048, 3072].iter().map(|m| UserShapeScn { kind: "huge".into(), fin_after: *m, fail_op: 0 }).collect(),
+        6 => vec![UserShapeScn { kind: "stderr-gone".into(), fin_after: 0, fail_op: 0 }],
+        // the size ladder: every even size from 4 to 4096 bytes (the size travels in `fin_after`)
+        5 => (2..=2048u32).map(|h| UserShapeScn { kind: "sized".into(), fin_after: 2 * h, fail_op: 0 }).collect(),
         _ => {
             // a finalize beyond 2 GiB that fails once at each of its first operations
             (1..=17).map(|k| UserShapeScn { kind: "big".into(), fin_after: 32, fail_op: k }).collect()
